@@ -162,8 +162,8 @@ func dangerous(v viewInfo) bool {
 	}
 	const s = int64(1000000000)
 	nd := v.waitNs
-	if nd > 30*s && nd < 39*s {
-		return true // SendProlongationRequest timer of (nd - 30 s)
+	if nd >= 30*s && nd < 39*s {
+		return true // SendProlongationRequest timer of (nd - 30 s): 0 ns .. 9 s
 	}
 	if nd >= 1*s && nd < 9*s {
 		return true // later used as ProlongRequestReply duration
@@ -278,19 +278,7 @@ func genEvent(r *vh.Rng, st int, started bool, storedID string, payCounter *int,
 //
 //	SendProlongationRequest timer is armed with duration zero.
 func immediateTimer(b ship.VerifSnapshot, e *event) bool {
-	if b.State != 11 {
-		return false
-	}
-	if (e.kind == "timeout" || e.kind == "selftimeout") && b.TimerRunning && b.TimerType == 1 && !e.allow {
-		return true
-	}
-	if e.kind == "recv" {
-		v := viewOf(e.msg)
-		if v.hasWait && v.waitNs == 30*1000000000 {
-			return true
-		}
-	}
-	return false
+	return b.State == 11 && (e.kind == "timeout" || e.kind == "selftimeout") && b.TimerRunning && b.TimerType == 1 && !e.allow
 }
 
 // settle waits for a self-firing timer: first for any observation to appear, then for the
@@ -664,11 +652,21 @@ func runScenario(r *vh.Rng, maxLen int, script *scriptT) *scenario {
 			// a timer armed with a (near-)zero duration expires by itself at once: wait for it
 			// and record it as the timeout event it is
 			if immediateTimer(before, e) {
-				cur, last := e, before
-				for round := 0; round < 3 && immediateTimer(last, cur); round++ {
-					if !settle(env) {
+				// the reply timer was armed with lastReceivedWaitingValue (66000 ns unless the peer
+				// announced a waiting time): if it expires by itself the connection aborts (abort done or
+				// error state). Wait for that definite end of the expiry handler, then record the expiry
+				// as the timeout event it is.
+				fired := false
+				for i := 0; i < 400; i++ {
+					st := conn.VerifSnapshot().State
+					if st == 15 || st == 39 {
+						fired = true
 						break
 					}
+					time.Sleep(time.Millisecond)
+				}
+				if fired {
+					time.Sleep(20 * time.Millisecond)
 					se := &event{kind: "selftimeout", coqEv: "ETimeout", wf: -1, paired: e.paired, auto: e.auto, allow: e.allow}
 					o := env.take()
 					s := conn.VerifSnapshot()
@@ -676,12 +674,6 @@ func runScenario(r *vh.Rng, maxLen int, script *scriptT) *scenario {
 					sc.events = append(sc.events, se)
 					sc.obs = append(sc.obs, o)
 					sc.kinds[se.kind]++
-					// the expiry ran in the state the previous event left behind
-					last = ship.VerifSnapshot{State: 11, TimerRunning: true, TimerType: lastType(sc)}
-					cur = se
-					if s.State != 11 {
-						break
-					}
 				}
 			}
 		}
